@@ -1,4 +1,7 @@
 import Rustemo.Proofs.NoPanic
+import Rustemo.Proofs.TermMain
+import Rustemo.Props.ExampleTerm
+import Rustemo.Props.C13
 import Rustemo.Proofs.GlrLayout
 import Rustemo.Proofs.GlrExample
 import Rustemo.Props.Example
@@ -12,8 +15,15 @@ LR half, no-panic part.  `LR.parse` models `LRParser::parse` with every `unwrap`
 set.  `Cert.structural` and `Cert.total` are executable certificates run by the driver on the table
 dumped from the real compiler (for the layout automaton as well when the grammar has a Layout rule).
 
-NOT proved: termination (the model takes fuel; hangs are decided by the watchdog of the
-correspondence harness, known finding F14).  The GLR half (no panic) is `C15_glr_no_panic` below, a restatement of
+Termination (LR half): `C15_lr_terminates` — on a table passing the executable certificate
+`Cert.terminating` (`Model/CertTerm.lean`: no unit-derivation cycle among the productions the table
+reduces by, no goto cycle on nullable nonterminals) and for recognizers whose tokens other than STOP
+are not empty (`NonEmptyTokens`), the model never runs out of fuel once it has `Cert.termBound g t n`
+of it, `n` the input length: an explicit bound, linear in `n`.  The two known non-terminating classes
+are exactly the two hypotheses: F24 (cyclic grammar accepted through priorities) fails the certificate
+(`C15_counterexample_cyclic_grammar`), F14 (a terminal that matches the empty string) violates
+`NonEmptyTokens`.  NOT proved: termination with the adversarial user lexers (`env.custom`), and of the
+GLR parser.  The GLR half (no panic) is `C15_glr_no_panic` below, a restatement of
 `C03_engine_no_panic_certified` (engine model `Glr.parse`, Model/Glr.lean, tied to `GlrParser::parse` by the C03
 correspondence).
 -/
@@ -61,6 +71,58 @@ theorem C15_lr_no_panic (env : Env) (hcert : Cert.lr env.g env.t = true)
 
 /-- non-vacuity: the certificate holds for a concrete table -/
 example : Cert.lr Example.env.g Example.env.t = true := by decide
+
+/-- **`LRParser::parse` terminates.**  Default string lexer (`env.custom = none`), any recognizers that
+    stay inside the input (`RecogOk`) and report no empty token except STOP (`NonEmptyTokens`), any
+    input, whitespace skipping or a Layout rule (the nested layout parser included), partial parsing on
+    or off.  On a table passing `Cert.lr` (structural + total, layout automaton covered),
+    `Cert.noShiftStop` and the termination certificate `Cert.terminating`, the parser model given at
+    least `Cert.termBound g t |input|` fuel never answers `.fuel`: it stops with Ok or Err (never a
+    panic: `C15_lr_no_panic`).  `Cert.termBound g t n = n + (n+1)·Wn·E + 2n·K + 1` with
+    `E = (m+1)^W`, `K = (1 + m·E)·W`, where `m` is the longest used right-hand side, `W` (`Wn`) one
+    more than the largest rank of a symbol (state) the certificate computed. -/
+theorem C15_lr_terminates (env : Env) (hc : env.custom = none) (hr : RecogOk env)
+    (hne : NonEmptyTokens env) (hcert : Cert.lr env.g env.t = true)
+    (hstop : Cert.noShiftStop env.t = true) (hterm : Cert.terminating env.g env.t = true)
+    (partialParse : Bool) (fuel : Nat) (hfuel : Cert.termBound env.g env.t env.input.length ≤ fuel) :
+    (parse env partialParse fuel).2 ≠ .fuel := by
+  unfold Cert.lr at hcert
+  simp only [Bool.and_eq_true] at hcert
+  obtain ⟨⟨hs, _⟩, hl⟩ := hcert
+  refine parse_terminates env hc hr hne (C13.noShiftStop_sound _ hstop) (Cert.structural_sound _ _ _ hs) ?_
+    hterm partialParse fuel hfuel
+  intro ls hls
+  rw [hls] at hl
+  simp only [Bool.and_eq_true, List.any_eq_true, beq_iff_eq] at hl
+  obtain ⟨⟨au, hau, hst⟩, _⟩ := hl
+  exact ⟨au, hau, hst⟩
+
+/-- non-vacuity: `S: 'a' S | EMPTY` on "a a": every hypothesis holds, the bound is 70 iterations -/
+example : Example.env.custom = none ∧ Cert.lr Example.env.g Example.env.t = true ∧
+    Cert.noShiftStop Example.env.t = true ∧ Cert.terminating Example.env.g Example.env.t = true ∧
+    Cert.termBound Example.env.g Example.env.t Example.env.input.length = 70 := by decide +kernel
+
+example : NonEmptyTokens Example.env := by
+  intro k p l h hk
+  have h' : Example.recog k p = some l := h
+  unfold Example.recog at h'
+  by_cases h1 : k = 1
+  · rw [if_pos h1] at h'
+    split at h'
+    · injection h' with h'; omega
+    · simp at h'
+  · rw [if_neg h1, if_neg hk] at h'
+    simp at h'
+
+/-- **The class of finding F24 is outside the certificate, and it does hang**: on the table rustemo
+    builds for `S: A | Ta; A: S {15};` (cyclic grammar, the conflict accept / reduce `A → S` resolved by
+    the priority) `Cert.terminating` is false although every other hypothesis of `C15_lr_terminates`
+    holds, and the parser model is still running after 300 iterations on the input `a`. -/
+theorem C15_counterexample_cyclic_grammar :
+    ExampleTerm.F24.env.custom = none ∧ Cert.lr ExampleTerm.F24.g ExampleTerm.F24.t = true ∧
+    Cert.noShiftStop ExampleTerm.F24.t = true ∧
+    Cert.terminating ExampleTerm.F24.g ExampleTerm.F24.t = false ∧
+    ExampleTerm.F24.isFuel (parse ExampleTerm.F24.env false 300).2 = true := by decide +kernel
 
 /-- **GLR half: `GlrParser::parse` never panics.**  The engine model `Glr.parse` (every `unwrap` / `expect` / index of
     `glr/parser.rs` and `glr/gss.rs` is a `.panic site`, the nested LR layout parser included) reaches no panic site
